@@ -26,6 +26,7 @@ pub const FAMILIES: &[&str] = &[
     "uv-bh",
     "uv-b3",
     "saftvrmie",
+    "saftvrmie-crossassoc",
     "saftvrqmie",
 ];
 
